@@ -560,23 +560,211 @@ pub fn check_core(c: &CoreCase) -> Verdict {
     run_core(c)
 }
 
+// ---- hostile *replies*: bytes a peer sends in answer to the node's own request are received bytes too ----------
+#[derive(Debug, Clone, Serialize, Deserialize)]
+pub enum IdShape {
+    Hex,
+    Empty,
+    /// n repetitions of a 2-byte character after an optional 1-byte prefix (byte 8 falls inside a character)
+    MultiByte(u8, bool),
+    Long(u16),
+    /// arbitrary text
+    Text(String),
+}
+fn id_of(s: &IdShape, i: usize) -> String {
+    match s {
+        IdShape::Hex => hex::encode(blake3::hash(&[i as u8, 0x5e]).as_bytes()),
+        IdShape::Empty => String::new(),
+        IdShape::MultiByte(n, prefix) => format!("{}{}", if *prefix { "a" } else { "" }, "é".repeat(1 + *n as usize % 12)),
+        IdShape::Long(n) => "z".repeat(*n as usize % 2000),
+        IdShape::Text(t) => t.clone(),
+    }
+}
+#[derive(Debug, Clone, Serialize, Deserialize)]
+pub enum HostileReply {
+    /// ValueFound / GetSuccess with a value of the given size class (0, 512, 513, 4096, 60 000, other)
+    Value { get_success: bool, len: u16, other_key: bool, source: IdShape },
+    /// NodesFound naming n nodes with the given id and address shapes
+    Nodes { n: u16, id: IdShape, addr: u8, forged_distance: bool },
+    PutAck { replicated_to: u64, outcomes: u16, id: IdShape },
+    NotFound { peers_queried: u64 },
+    Pong { responder: IdShape },
+    Error { len: u16 },
+}
+#[derive(Debug, Clone, Serialize, Deserialize)]
+pub struct ReplyCase {
+    /// 0 get, 1 find_closest_nodes, 2 put, 3 ping
+    op: u8,
+    key: u8,
+    reply: HostileReply,
+}
+fn vlen_of(x: u16) -> usize {
+    match x % 8 {
+        0 => 0,
+        1 => 512,
+        2 => 513,
+        3 => 4096,
+        4 => 60_000,
+        5 => 65_000,
+        _ => x as usize % 700,
+    }
+}
+fn run_reply(c: &ReplyCase) -> Verdict {
+    let rt = paused_rt();
+    let pan0 = panic_count();
+    let mut v = rt.block_on(async {
+        let mut v = Verdict::new();
+        let hub = Hub::new(5, 0);
+        let node = match add_node(&hub, tid_bytes(0x56, 0), node_addr(0), None, Duration::from_secs(2), 8).await {
+            Ok(n) => n,
+            Err(e) => {
+                v.fail(format!("{ID}/harness/node-construction-failed"), e);
+                return v;
+            }
+        };
+        let key = *blake3::hash(&[c.key, 0x72]).as_bytes();
+        let other = *blake3::hash(&[c.key, 0x73]).as_bytes();
+        let mut big_value = false;
+        let result = match &c.reply {
+            HostileReply::Value { get_success, len, other_key, source } => {
+                let n = vlen_of(*len);
+                big_value = n > 512;
+                let k = if *other_key { other } else { key };
+                if *get_success {
+                    DhtNetworkResult::GetSuccess { key: k, value: vec![0xee; n], source: id_of(source, 0) }
+                } else {
+                    DhtNetworkResult::ValueFound { key: k, value: vec![0xee; n], source: id_of(source, 0) }
+                }
+            }
+            HostileReply::Nodes { n, id, addr, forged_distance } => {
+                let count = match n % 6 {
+                    0 => 0usize,
+                    1 => 1,
+                    2 => 20,
+                    3 => 21,
+                    4 => 300,
+                    _ => *n as usize % 3000,
+                };
+                let nodes = (0..count)
+                    .map(|i| saorsa_core::dht_network_manager::DHTNode {
+                        peer_id: match id {
+                            IdShape::Hex => id_of(id, i),
+                            other => format!("{}{}", id_of(other, i), if i % 3 == 0 { String::new() } else { i.to_string() }),
+                        },
+                        address: match addr % 5 {
+                            0 => node_addr(300 + i % 200).to_string(),
+                            1 => String::new(),
+                            2 => "not an address".to_string(),
+                            3 => format!("{} ({})", node_addr(300 + i % 200), "é".repeat(9)),
+                            _ => "9".repeat(1000),
+                        },
+                        distance: if *forged_distance { Some(vec![0u8; (i % 40) as usize]) } else { None },
+                        reliability: if i % 2 == 0 { f64::NAN } else { 1.0 },
+                        cached_dht_key: None,
+                    })
+                    .collect();
+                DhtNetworkResult::NodesFound { key, nodes }
+            }
+            HostileReply::PutAck { replicated_to, outcomes, id } => DhtNetworkResult::PutSuccess {
+                key,
+                replicated_to: *replicated_to as usize,
+                peer_outcomes: (0..(*outcomes as usize % 500)).map(|i| saorsa_core::dht_network_manager::PeerStoreOutcome { peer_id: id_of(id, i), success: i % 2 == 0, error: Some("x".repeat(i % 50)) }).collect(),
+            },
+            HostileReply::NotFound { peers_queried } => DhtNetworkResult::GetNotFound { key, peers_queried: *peers_queried as usize, peers_failed: usize::MAX, last_error: Some("é".repeat(20)) },
+            HostileReply::Pong { responder } => DhtNetworkResult::PongReceived { responder: id_of(responder, 0), latency: Duration::from_secs(u64::MAX / 4) },
+            HostileReply::Error { len } => DhtNetworkResult::Error { operation: "é".repeat(5), error: "e".repeat(*len as usize % 70_000) },
+        };
+        let reply_len = postcard::to_stdvec(&result).map(|b| b.len()).unwrap_or(0);
+        let peer = add_stub(&hub, tid_bytes(0x56, 1), node_addr(1), StubScript { raw_result: Some(result), ack_put: true, ..StubScript::default() });
+        let _ = node.th.connect_peer(&node_addr(1).to_string()).await;
+        settle(10).await;
+        alloc_begin();
+        let done = tokio::time::timeout(Duration::from_secs(2 * 45), async {
+            match c.op % 4 {
+                0 => node.mgr.get(&key).await.map(|r| format!("{:?}", std::mem::discriminant(&r))).map_err(|e| e.to_string()),
+                1 => node.mgr.find_closest_nodes(&key, 8).await.map(|r| format!("{} nodes", r.len())).map_err(|e| e.to_string()),
+                2 => node.mgr.put(key, vec![1, 2, 3]).await.map(|r| format!("{:?}", std::mem::discriminant(&r))).map_err(|e| e.to_string()),
+                _ => node.mgr.ping(&peer).await.map(|r| format!("{r:?}")).map_err(|e| e.to_string()),
+            }
+        })
+        .await;
+        let (peak, biggest) = alloc_end();
+        let site = ["get", "find_closest_nodes", "put", "ping"][(c.op % 4) as usize];
+        if done.is_err() {
+            v.fail(format!("{ID}/{site}/hostile-reply-hangs-the-operation"), format!("{:?}", c.reply));
+        }
+        let bound = 4 * 1024 * 1024 + 16 * reply_len;
+        if peak > bound {
+            v.fail(format!("{ID}/{site}/heap-growth-beyond-documented-limits"), format!("{peak} bytes (largest request {biggest}) while handling a {reply_len}-byte reply; bound {bound}"));
+        }
+        if c.op % 4 == 1 {
+            if let Ok(Ok(r)) = &done {
+                let n: usize = r.split(' ').next().and_then(|x| x.parse().ok()).unwrap_or(0);
+                v.check(n <= 8, &format!("{ID}/{site}/more-nodes-returned-than-requested"), || r.clone());
+            }
+        }
+        // nothing over 512 bytes may have entered the store, under the requested key or the one the reply named
+        for k in [key, other] {
+            if let Ok(Some(held)) = node.mgr.get_local(&k).await {
+                if held.len() > 512 {
+                    v.fail(format!("{ID}/{site}/oversized-value-from-a-reply-retained"), format!("{} bytes from a peer's reply are in the local store", held.len()));
+                }
+            }
+        }
+        v.nt(true);
+        v.class(format!("op_{site}"));
+        v.class(match &c.reply {
+            HostileReply::Value { .. } => if big_value { "reply_oversized_value" } else { "reply_value" },
+            HostileReply::Nodes { .. } => "reply_nodes",
+            HostileReply::PutAck { .. } => "reply_put_ack",
+            HostileReply::NotFound { .. } => "reply_not_found",
+            HostileReply::Pong { .. } => "reply_pong",
+            HostileReply::Error { .. } => "reply_error",
+        });
+        let _ = tokio::time::timeout(Duration::from_secs(600), node.mgr.stop()).await;
+        v
+    });
+    attribute_task_panics(&mut v, ID, pan0);
+    v
+}
+fn id_shape() -> impl Strategy<Value = IdShape> {
+    prop_oneof![2 => Just(IdShape::Hex), 1 => Just(IdShape::Empty), 3 => (any::<u8>(), any::<bool>()).prop_map(|(n, p)| IdShape::MultiByte(n, p)), 1 => any::<u16>().prop_map(IdShape::Long), 2 => ".{0,24}".prop_map(IdShape::Text)]
+}
+pub fn reply_case() -> impl Strategy<Value = ReplyCase> {
+    let reply = prop_oneof![
+        4 => (any::<bool>(), any::<u16>(), any::<bool>(), id_shape()).prop_map(|(get_success, len, other_key, source)| HostileReply::Value { get_success, len, other_key, source }),
+        4 => (any::<u16>(), id_shape(), 0u8..5, any::<bool>()).prop_map(|(n, id, addr, forged_distance)| HostileReply::Nodes { n, id, addr, forged_distance }),
+        1 => (prop_oneof![Just(0u64), Just(u64::MAX), any::<u64>()], any::<u16>(), id_shape()).prop_map(|(replicated_to, outcomes, id)| HostileReply::PutAck { replicated_to, outcomes, id }),
+        1 => any::<u64>().prop_map(|peers_queried| HostileReply::NotFound { peers_queried }),
+        1 => id_shape().prop_map(|responder| HostileReply::Pong { responder }),
+        1 => any::<u16>().prop_map(|len| HostileReply::Error { len }),
+    ];
+    (0u8..4, any::<u8>(), reply).prop_map(|(op, key, reply)| ReplyCase { op, key, reply })
+}
+
 pub fn run(run: &Run) {
     // a single allocation request that would abort the process is decided for the case in flight (engine::absurd_fatal)
     TRACK_INFLIGHT.store(true, std::sync::atomic::Ordering::Relaxed);
+    install_log_sink();
     run.assume("heap growth is measured by a thread-local counting allocator around each call on a single-threaded runtime");
     run.assume("timestamp window edges get a 5 s dead band (wall clock)");
     run.set_rule("inbound", "bytes handed to handle_dht_message and, framed (protocol, claimed sender, timestamp offset, optional frame mutations), to the real receive dispatcher: random bytes with sizes clustered at 0/1/64Ki−1/64Ki/64Ki+1/128Ki, structure-aware mutations (bit flips, truncation, splices, maximal varints, byte overwrite) of every valid message kind, and valid messages with extreme fields; non-trivial = decodes at least to the outer message, or a boundary size");
     run.set_rule("core", "DhtRequestWrapper (FindNode count 0/20/21/usize::MAX, Store 0/512/513/60000 bytes, FindValue, Retrieve) serialised, mutated, decoded and handled on tables of 0..59 nodes; DhtRecord serialise/mutate/deserialise; non-trivial = mutated or extreme field");
     run.max_shrink.store(400, std::sync::atomic::Ordering::Relaxed);
     let sh = shards_for(run.tier);
-    run.prop_f("inbound", run.tier.pick(3000, 400000), sh, inbound_case, run_case);
-    run.prop_f("core", run.tier.pick(6000, 1200000), sh, core_case, run_core);
+    run.prop_f("inbound", run.tier.pick(12000, 400000), sh, inbound_case, run_case);
+    run.prop_f("core", run.tier.pick(24000, 1200000), sh, core_case, run_core);
+    run.assume("every sub-check runs with logging on (a tracing subscriber that enables every level and formats every field), as a production node does: a panic while evaluating a log line's arguments is a panic of message handling");
+    run.set_rule("reply", "a real node issues get / find_closest_nodes / put / ping to a connected stub that answers its request (right id, right connection) with a hostile result: ValueFound/GetSuccess of 0/512/513/4096/60000/65000 bytes (also under another key), NodesFound naming 0/1/20/21/300/..3000 nodes whose ids are hex, empty, multi-byte text, long or arbitrary text and whose addresses are valid, empty, garbage or huge, forged distances, NaN reliability, PutSuccess with absurd counts, GetNotFound/Pong/Error with extreme fields; oracle: no panic (logging on), operation completes, heap growth ≤ 4 MiB + 16×reply, ≤ k nodes returned, nothing over 512 bytes in the local store; all non-trivial");
+    run.prop_f("reply", run.tier.pick(8000, 120000), sh, reply_case, run_reply);
 }
 
 pub fn replay(run: &Run, sub: &str, case: &Value) -> Option<bool> {
+    install_log_sink();
     match sub {
         "inbound" => Some(run.eval_case("replay/inbound", &from_value::<Case>(case)?, &run_case)),
         "core" => Some(run.eval_case("replay/core", &from_value::<CoreCase>(case)?, &run_core)),
+        "reply" => Some(run.eval_case("replay/reply", &from_value::<ReplyCase>(case)?, &run_reply)),
         _ => None,
     }
 }
